@@ -165,7 +165,9 @@ fn cheap_shrink(ctx: &Ctx) -> Ctx {
 }
 fn gen_source(tape: &[u16], no_trap: bool) -> Option<String> {
     let prog = catch(|| Gen::program(tape, &GenOpts::default())).ok()?;
-    Some(swaygen::emit_program(&prog, &EmitOpts { mask_shifts: false, no_trap }))
+    let src = swaygen::emit_program(&prog, &EmitOpts { mask_shifts: false, no_trap });
+    // skip the rare programs whose front end needs minutes (see c17mut::front_end_is_quick)
+    crate::c17mut::front_end_is_quick(&src).then_some(src)
 }
 fn abort_class(e: &End) -> &'static str {
     match e {
@@ -232,7 +234,7 @@ fn c03_eval(case: &C03Case, rep: &Report, singles: bool) -> Result<(), Fail> {
             return Ok(());
         };
         let inputs: Vec<Vec<u8>> = swaygen::input_sets(tape_hash(&case.tape)).iter().map(|a| swaygen::encode_args(a)).collect();
-        let r: Result<(), Fail> = with_fastc(300, |fc| {
+        let r: Result<(), Fail> = with_fastc(80, |fc| {
             let t = match fc.typed(&src) {
                 Ok(t) => t,
                 Err(_) => {
@@ -490,7 +492,7 @@ pub fn run_c03(ctx: &Ctx) {
 fn baseline_matches_real(rep: &Report) {
     let tape = gen_one(7, &tape_strategy());
     if let Some(src) = gen_source(&tape, true) {
-        with_fastc(300, |fc| {
+        with_fastc(80, |fc| {
             let real = fc.compile(&src, sway_core::OptLevel::Opt0).ok().map(|c| c.bytecode);
             let mine = fc.typed(&src).ok().and_then(|t| pipeline(fc, &t, &full(&[]), false).ok()).and_then(|r| r.ok()).and_then(|r| r.bytecode.ok());
             rep.class(if real.is_some() && real == mine { "baseline-matches-real-O0" } else { "baseline-DIFFERS-from-real-O0" });
@@ -546,7 +548,7 @@ fn c04_eval(case: &C04Case, rep: &Report, corpus: &[(String, String)]) -> Result
                 return Ok(());
             };
             let passes = c04_seq(seq);
-            with_fastc(300, |fc| {
+            with_fastc(80, |fc| {
                 let t = match fc.typed(&src) {
                     Ok(t) => t,
                     Err(_) => {
@@ -849,7 +851,7 @@ fn c05_eval(case: &C05Case, rep: &Report, corpus: &[(String, String)]) -> Result
             // stage k = text after the first k passes (k = 0: initial IR)
             let k = idx(*stage, list.len() + 1);
             let inputs: Vec<Vec<u8>> = swaygen::input_sets(tape_hash(tape)).iter().map(|a| swaygen::encode_args(a)).collect();
-            with_fastc(300, |fc| {
+            with_fastc(80, |fc| {
                 let t = match fc.typed(&src) {
                     Ok(t) => t,
                     Err(_) => {
@@ -953,7 +955,7 @@ pub fn dump_ir(args: &[String]) {
     let seed: u64 = args.first().and_then(|s| s.parse().ok()).unwrap_or(1);
     let tape = gen_one(seed, &tape_strategy());
     let src = gen_source(&tape, true).unwrap();
-    with_fastc(300, |fc| {
+    with_fastc(80, |fc| {
         let t = fc.typed(&src).expect("typed");
         let _ = fc.with_fresh_ir(&t, |ir| {
             let _ = run_passes(ir, &[sway_ir::INIT_AGGR_LOWERING_NAME], false);
@@ -1005,7 +1007,7 @@ pub fn dev_passes(args: &[String]) {
             println!("verifier: {:?}; consistency: {:?}", ir.verify().map_err(|e| e.to_string()), hand_written_ir_is_consistent(&ir));
             go(&mut ir);
         } else {
-          with_fastc(300, |fc| {
+          with_fastc(80, |fc| {
             let t = fc.typed(&text).expect("typed");
             let _ = fc.with_fresh_ir(&t, |ir| {
                 go(ir);
